@@ -249,6 +249,12 @@ def job_guards():
         _, ps = sf(op, i=i, j=j)
         ok = bool(ps) and all(p.end is not None and p.end.kind == 'exit' and any(e[0] == 'diag' for e in p.st.events) for p in ps)
         res.append(ob('guard/' + nm, 'discharged' if ok else 'candidate', key='C06/guard/' + nm.split('(')[0], model=None if ok else {'op': op, 'i': i, 'j': j, 'case': nm}, detail=str([str(p.end) for p in ps][:3])))
+    # meaningful requests on both sides of the table / log-gamma switch of Binomial_Coefficient (n = 170 | 171) and at the ends of k: every one returns
+    for n in (0, 1, 2, 169, 170, 171, 172, 173, 400):
+        for k in sorted(set([0, 1, n // 2, max(n - 1, 0), n])):
+            _, ps = sf(11, i=n, j=k, limits=Limits(max_steps=20000000, max_seconds=60))
+            ok = bool(ps) and all(p.end is None for p in ps)
+            res.append(ob('guard/Binomial(%d,%d)-accepted' % (n, k), 'discharged' if ok else 'candidate', key='C06/guard/Binomial-accepted', model=None if ok else {'op': 11, 'i': n, 'j': k, 'case': 'Binomial(%d,%d)' % (n, k)}, detail=str([str(p.end) for p in ps][:3])))
     _, ps = sf(10, i=170)
     ok = len(ps) == 1 and ps[0].end is None
     res.append(ob('guard/Factorial(170)-accepted', 'discharged' if ok else 'candidate', key='C06/guard/Factorial-accepted', model=None if ok else {'op': 10, 'i': 170, 'j': 0, 'case': 'Factorial(170)'}, detail=str([str(p.end) for p in ps])))
